@@ -62,7 +62,17 @@ namespace occa {
     }
 
     void leftUnaryOpNode::print(printer &pout) const {
-      pout << op << *value;
+      pout << op;
+      // Keep - -x, + +x, - --x and & &x from turning into --x, ++x, ---x and &&x
+      const std::string valueStr = value->toString();
+      if (valueStr.size() && op.str.size()) {
+        const char c = valueStr[0];
+        if ((c == op.str[op.str.size() - 1]) &&
+            ((c == '+') || (c == '-') || (c == '&'))) {
+          pout << ' ';
+        }
+      }
+      pout << *value;
     }
 
     void leftUnaryOpNode::debugPrint(const std::string &prefix) const {
